@@ -25,33 +25,11 @@ Ltac brk H :=
 Definition rfc_after (s0 : st) (m : meth) (status : N) : st :=
   if (status =? sOK) && Rfc2326.allowed s0 m then Rfc2326.next s0 m else s0.
 
-(* the one path on which the handler changes the state and answers with an error *)
-Definition start_failure (r : req) (s : session) : bool :=
-  meth_eqb (rmeth r) RecordM && st_eqb (sstate s) PreRecord && (vstatus r =? sOK)
-  && (match stransport s with Some UDP => true | _ => false end) && start_fails (smedias s).
-
 Ltac negs :=
   repeat match goal with
   | E : negb _ = true |- _ => apply negb_true_iff in E
   | E : negb _ = false |- _ => apply negb_false_iff in E
   end.
-
-Lemma handle_state cf o c r s s' status e :
-  handle cf o c r s = HOk s' status e ->
-  (sstate s' = rfc_after (sstate s) (rmeth r) status
-   \/ (start_failure r s = true /\ sstate s' = Record /\ status = sBad /\ e = EFatal)).
-Proof.
-  unfold handle, fail400, rfc_after, start_failure, destroy_writer, streaming. intros H.
-  destruct (pin_reject c s); [inversion H; subst; left; destruct (sstate s'), (rmeth r); reflexivity|].
-  destruct (rmeth r) eqn:Em; destruct (sstate s) eqn:Es; cbn [st_eqb negb andb orb] in H.
-  all: brk H; try discriminate; inversion H; subst; clear H; cbn.
-  all: rewrite ?orb_true_r, ?orb_false_r, ?andb_true_r, ?andb_false_r in *; try discriminate; negs.
-  all: try (left; reflexivity).
-  all: rewrite ?Es; cbn.
-  all: try (left; repeat match goal with E : (_ =? _) = _ |- _ => rewrite ?E; clear E end; reflexivity).
-  all: try (left; repeat match goal with |- context [if ?b then _ else _] => destruct b end; reflexivity).
-  all: try (right; match goal with p : proto |- _ => destruct p end; cbn in *; try discriminate; repeat split; assumption).
-Qed.
 
 Lemma handle_illegal cf o c r s s' status e :
   handle cf o c r s = HOk s' status e ->
@@ -217,61 +195,6 @@ Definition rfc_vec (v : list st) (t : option N) (m : meth) (status : N) : list s
               | None => v ++ [rfc_after Initial m status]
               end
   end.
-
-Definition no_start_failure (cf : cfg) (sv : server) (r : req) : Prop :=
-  forall k s, target cf sv r = Some k -> nnth k (sessions sv) = Some s -> start_failure r s = false.
-
-Lemma start_failure_conns r s l : start_failure r (upd_conns s l) = start_failure r s.
-Proof. reflexivity. Qed.
-
-Theorem step_refines cf sv r sv' rp evs :
-  step cf sv r = Done sv' rp evs ->
-  no_start_failure cf sv r ->
-  pst sv' = rfc_vec (pst sv) (target cf sv r) (rmeth r) (status_of rp).
-Proof.
-  unfold no_start_failure. intros H NS. unfold target, lookup in *. unfold step in H.
-  destruct (nnth (rconn r) (conns sv)) as [x|]; [|inversion H; reflexivity].
-  destruct (copen x); cbn [negb] in *; [|inversion H; reflexivity].
-  destruct (ctcp x && _); [discriminate|].
-  destruct (rcseq r); cbn [negb] in *; [|apply finish_spec in H; destruct H as [-> _]; reflexivity].
-  destruct (dispatch cf r) as [status e|create]; [apply finish_spec in H; destruct H as [-> _]; reflexivity|].
-  assert (IS : forall sv0 k evs0,
-             in_session cf sv0 (rconn r) x r k evs0 = Done sv' rp evs ->
-             (forall s, nnth k (sessions sv0) = Some s -> start_failure r s = false) ->
-             exists s, nnth k (sessions sv0) = Some s /\
-             pst sv' = nset k (rfc_after (sstate s) (rmeth r) (status_of rp)) (pst sv0)).
-  { intros sv0 k evs0 Hi Hs. apply in_session_spec in Hi.
-    destruct Hi as (s & s1 & status & e & sid & Ek & Eh & P & ->). exists s. split; [exact Ek|].
-    rewrite P. cbn [status_of rstatus]. f_equal.
-    destruct (handle_state _ _ _ _ _ _ _ _ Eh) as [E|(F & _)]; [exact E|].
-    rewrite start_failure_conns, (Hs s Ek) in F. discriminate. }
-  destruct (csess x) as [k0|].
-  - destruct (match rsess r with Some k => negb (k =? k0) | None => false end).
-    + apply finish_spec in H; destruct H as [-> _]; reflexivity.
-    + apply IS in H; [|intros s Es; eapply NS; [reflexivity|exact Es]].
-      destruct H as (s & Es & ->). unfold rfc_vec, pst. now rewrite nnth_map, Es.
-  - destruct (match rsess r with
-              | Some k => match nnth k (sessions sv) with
-                          | Some s => if salive s then Some (k, s) else None
-                          | None => None
-                          end
-              | None => None
-              end) as [[k s]|] eqn:El.
-    + destruct (cip x =? saip s).
-      * apply IS in H; [|intros s0 Es; eapply NS; [reflexivity|exact Es]].
-        destruct H as (s0 & Es & ->). unfold rfc_vec, pst. now rewrite nnth_map, Es.
-      * apply finish_spec in H; destruct H as [-> _]; reflexivity.
-    + destruct create.
-      * apply IS in H.
-        -- destruct H as (s0 & Es & ->). cbn [sessions] in Es.
-           rewrite nnth_app_last in Es. inversion Es; subst s0.
-           unfold rfc_vec. unfold pst at 2. rewrite nnth_map, nnth_ge by lia. cbn [option_map].
-           unfold pst; cbn [sessions]. rewrite map_app. cbn [map new_session sstate].
-           rewrite <- (nlen_map sstate). apply nset_app_last.
-        -- intros s0 Es. cbn [sessions] in Es. rewrite nnth_app_last in Es. inversion Es.
-           unfold start_failure. cbn. destruct (meth_eqb (rmeth r) RecordM); reflexivity.
-      * apply finish_spec in H; destruct H as [-> _]; reflexivity.
-Qed.
 
 (* ---------- findFreeChannelPair terminates: each media blocks at most two candidates ---------- *)
 Definition cw (i : N) (m : media) : nat :=
@@ -1327,38 +1250,7 @@ Definition udp_streaming (s : session) : bool :=
   streaming s && match stransport s with Some UDP | Some MC => true | _ => false end.
 Definition tm_ok (s : session) : Prop := stimer s = udp_streaming s.
 
-Lemma handle_tm cf o c r s s1 status e :
-  sess_ok s -> tm_ok s -> start_failure r s = false ->
-  handle cf o c r s = HOk s1 status e -> tm_ok s1.
-Proof.
-  unfold handle, fail400, destroy_writer, tm_ok, udp_streaming, start_failure. intros OK T SF H.
-  destruct (pin_reject c s); [inversion H; subst; exact T|].
-  destruct OK as (I1 & I1' & I2 & I4 & I3 & I6 & I7 & I8).
-  destruct (rmeth r) eqn:Em; destruct (sstate s) eqn:Es; unfold streaming in *; rewrite ?Es in *;
-    cbn [st_eqb negb andb orb meth_eqb] in *.
-  all: brk H; try discriminate.
-  all: cbn [negb] in *; rewrite ?orb_true_r, ?orb_false_r, ?andb_true_r, ?andb_false_r in *; try discriminate.
-  all: inversion H; subst; clear H; cbn; rewrite ?Es; cbn; auto.
-  all: try (rewrite T; reflexivity).
-  all: try (match goal with E : stransport _ = Some _ |- _ => rewrite E in *; cbn in *; auto; try congruence end).
-  all: try (exfalso; apply I7; auto; fail).
-  all: try (match goal with p : proto |- _ => destruct p; cbn in *; congruence end).
-Qed.
-
-Theorem step_timer_armed cf sv r sv' rp evs :
-  step cf sv r = Done sv' rp evs ->
-  no_start_failure cf sv r ->
-  (forall k s, nnth k (sessions sv) = Some s -> salive s = true -> sess_ok s /\ tm_ok s) ->
-  forall k s', nnth k (sessions sv') = Some s' -> salive s' = true -> sess_ok s' /\ tm_ok s'.
-Proof.
-  intros H NS PA.
-  apply (step_lift (fun s => sess_ok s /\ tm_ok s) (fun r s => start_failure r s = false)) with (cf := cf) (sv := sv) (r := r) (rp := rp) (evs := evs); auto.
-  - intros c ip. split; [apply sess_ok_new|reflexivity].
-  - intros cf0 o c r0 s s1 st e [A B] Q Hh. split; [eapply handle_ok; eauto|eapply handle_tm; eauto].
-  - intros c ip. unfold start_failure. cbn. destruct (meth_eqb (rmeth r) RecordM); reflexivity.
-Qed.
-
-(* ---------- the finding: RECORD over UDP whose first UDP write fails ---------- *)
+(* ---------- regression: RECORD over UDP whose first UDP write fails (fixed by ba05e77) ---------- *)
 Definition cf_all : cfg := mkCfg true true true true true true true true true false 2.
 Definition w_announce : req := mkReq 0 Announce None true 200 false 0 0 0 [] None None 0 1.
 Definition w_setup : req := mkReq 0 Setup (Some 0) true 200 false 0 0 2 [UDP] (Some (0, 1)) None 0 0.
@@ -1367,19 +1259,14 @@ Definition w_record : req := mkReq 0 RecordM (Some 0) true 200 false 0 0 0 [] No
 Definition w_before : server :=
   final_server (init_server [0]) (fst (run_reqs cf_all (init_server [0]) [w_announce; w_setup])).
 
-(* the state is reachable, RECORD is legal in it and the application accepts it; the answer is 400,
-   yet the session has moved to Record; its only connection is closed, it is alive, streaming over
-   UDP, and its check timer is not armed: nothing will ever end it *)
-Lemma record_start_failure_witness :
+(* ANNOUNCE ; SETUP client_port=0-1 ; RECORD: answered 400, the session is still in PreRecord; the
+   connection is closed for the error and the session, no longer attached to anything, is ended at once *)
+Lemma record_start_failure_regression :
   exists sv' rp evs,
     step cf_all w_before w_record = Done sv' (Some rp) evs /\
-    target cf_all w_before w_record = Some 0 /\
-    pst w_before = [PreRecord] /\ Rfc2326.allowed PreRecord RecordM = true /\
-    rstatus rp = 400 /\ pst sv' = [Record] /\
-    (exists s, nnth 0 (sessions sv') = Some s /\ salive s = true /\ sconns s = [] /\
-               udp_streaming s = true /\ stimer s = false) /\
-    conn_open sv' 0 = false /\ evs = [].
-Proof. vm_compute. eexists _, _, _. repeat split. eexists. repeat split. Qed.
+    rstatus rp = 400 /\ pst w_before = [PreRecord] /\ pst sv' = [PreRecord] /\
+    alv sv' = [false] /\ evs = [EvEnd 0 2].
+Proof. vm_compute. eexists _, _, _. repeat split. Qed.
 
 (* ---------- why a session ends ---------- *)
 Lemma end_session_events k w sv sv' evs k' w' :
@@ -1725,4 +1612,90 @@ Lemma pin_only_while_interleaved sv k s c :
   streaming s = true /\ stransport s = Some TCP.
 Proof.
   intros I H A P. destruct (inv_sess _ _ I k s H A) as (_ & _ & _ & _ & _ & I6 & _). exact (I6 c P).
+Qed.
+
+
+(* ---------- refinement of the RFC 2326 machine and the check timer, full strength ---------- *)
+Lemma handle_state cf o c r s s' status e :
+  handle cf o c r s = HOk s' status e -> sstate s' = rfc_after (sstate s) (rmeth r) status.
+Proof.
+  unfold handle, fail400, rfc_after, destroy_writer, streaming. intros H.
+  destruct (pin_reject c s); [inversion H; subst; destruct (sstate s'), (rmeth r); reflexivity|].
+  destruct (rmeth r) eqn:Em; destruct (sstate s) eqn:Es; cbn [st_eqb negb andb orb] in H.
+  all: brk H; try discriminate; inversion H; subst; clear H; cbn.
+  all: rewrite ?orb_true_r, ?orb_false_r, ?andb_true_r, ?andb_false_r in *; try discriminate; negs.
+  all: try reflexivity.
+  all: rewrite ?Es; cbn.
+  all: try (repeat match goal with E : (_ =? _) = _ |- _ => rewrite ?E; clear E end; reflexivity).
+  all: try (repeat match goal with |- context [if ?b then _ else _] => destruct b end; reflexivity).
+Qed.
+
+Theorem step_refines cf sv r sv' rp evs :
+  step cf sv r = Done sv' rp evs ->
+  pst sv' = rfc_vec (pst sv) (target cf sv r) (rmeth r) (status_of rp).
+Proof.
+  intros H. unfold target, lookup in *. unfold step in H.
+  destruct (nnth (rconn r) (conns sv)) as [x|]; [|inversion H; reflexivity].
+  destruct (copen x); cbn [negb] in *; [|inversion H; reflexivity].
+  destruct (ctcp x && _); [discriminate|].
+  destruct (rcseq r); cbn [negb] in *; [|apply finish_spec in H; destruct H as [-> _]; reflexivity].
+  destruct (dispatch cf r) as [status e|create]; [apply finish_spec in H; destruct H as [-> _]; reflexivity|].
+  assert (IS : forall sv0 k evs0,
+             in_session cf sv0 (rconn r) x r k evs0 = Done sv' rp evs ->
+             exists s, nnth k (sessions sv0) = Some s /\
+             pst sv' = nset k (rfc_after (sstate s) (rmeth r) (status_of rp)) (pst sv0)).
+  { intros sv0 k evs0 Hi. apply in_session_spec in Hi.
+    destruct Hi as (s & s1 & status & e & sid & Ek & Eh & P & ->). exists s. split; [exact Ek|].
+    rewrite P. cbn [status_of rstatus]. f_equal. exact (handle_state _ _ _ _ _ _ _ _ Eh). }
+  destruct (csess x) as [k0|].
+  - destruct (match rsess r with Some k => negb (k =? k0) | None => false end).
+    + apply finish_spec in H; destruct H as [-> _]; reflexivity.
+    + apply IS in H. destruct H as (s & Es & ->). unfold rfc_vec, pst. now rewrite nnth_map, Es.
+  - destruct (match rsess r with
+              | Some k => match nnth k (sessions sv) with
+                          | Some s => if salive s then Some (k, s) else None
+                          | None => None
+                          end
+              | None => None
+              end) as [[k s]|] eqn:El.
+    + destruct (cip x =? saip s).
+      * apply IS in H. destruct H as (s0 & Es & ->). unfold rfc_vec, pst. now rewrite nnth_map, Es.
+      * apply finish_spec in H; destruct H as [-> _]; reflexivity.
+    + destruct create.
+      * apply IS in H. destruct H as (s0 & Es & ->). cbn [sessions] in Es.
+        rewrite nnth_app_last in Es. inversion Es; subst s0.
+        unfold rfc_vec. unfold pst at 2. rewrite nnth_map, nnth_ge by lia. cbn [option_map].
+        unfold pst; cbn [sessions]. rewrite map_app. cbn [map new_session sstate].
+        rewrite <- (nlen_map sstate). apply nset_app_last.
+      * apply finish_spec in H; destruct H as [-> _]; reflexivity.
+Qed.
+
+Lemma handle_tm cf o c r s s1 status e :
+  sess_ok s -> tm_ok s -> handle cf o c r s = HOk s1 status e -> tm_ok s1.
+Proof.
+  unfold handle, fail400, destroy_writer, tm_ok, udp_streaming. intros OK T H.
+  destruct (pin_reject c s); [inversion H; subst; exact T|].
+  destruct OK as (I1 & I1' & I2 & I4 & I3 & I6 & I7 & I8).
+  destruct (rmeth r) eqn:Em; destruct (sstate s) eqn:Es; unfold streaming in *; rewrite ?Es in *;
+    cbn [st_eqb negb andb orb meth_eqb] in *.
+  all: brk H; try discriminate.
+  all: cbn [negb] in *; rewrite ?orb_true_r, ?orb_false_r, ?andb_true_r, ?andb_false_r in *; try discriminate.
+  all: inversion H; subst; clear H; cbn; rewrite ?Es; cbn; auto.
+  all: try (rewrite T; reflexivity).
+  all: try (match goal with E : stransport _ = Some _ |- _ => rewrite E in *; cbn in *; auto; try congruence end).
+  all: try (exfalso; apply I7; auto; fail).
+  all: try (match goal with p : proto |- _ => destruct p; cbn in *; congruence end).
+Qed.
+
+(* in every reachable state the UDP check timer is armed exactly while a session
+   streams over UDP: together with Timeouts.silent_peer_expired, every silent session is expired *)
+Theorem step_timer_armed cf sv r sv' rp evs :
+  step cf sv r = Done sv' rp evs ->
+  (forall k s, nnth k (sessions sv) = Some s -> salive s = true -> sess_ok s /\ tm_ok s) ->
+  forall k s', nnth k (sessions sv') = Some s' -> salive s' = true -> sess_ok s' /\ tm_ok s'.
+Proof.
+  intros H PA.
+  apply (step_lift (fun s => sess_ok s /\ tm_ok s) (fun _ _ => True)) with (cf := cf) (sv := sv) (r := r) (rp := rp) (evs := evs); auto.
+  - intros c ip. split; [apply sess_ok_new|reflexivity].
+  - intros cf0 o c r0 s s1 st e [A B] _ Hh. split; [eapply handle_ok; eauto|eapply handle_tm; eauto].
 Qed.
